@@ -78,6 +78,12 @@ def _apply_edp_columns(df: pd.DataFrame, metrics: Metrics) -> pd.DataFrame:
 
     energy = df["Total<SEP>energy"]
     latency = df["Total<SEP>latency"]
+    # Integer-valued energies and latencies give integer columns, whose product wraps
+    # around in int64 for large workloads.
+    if pd.api.types.is_integer_dtype(energy):
+        energy = energy.astype(float)
+    if pd.api.types.is_integer_dtype(latency):
+        latency = latency.astype(float)
     df["Total<SEP>energy_delay_product"] = energy * latency
     if not (metrics & Metrics.ENERGY):
         del df["Total<SEP>energy"]
